@@ -338,12 +338,15 @@ structure Facts where
   fillvalue : String
   reprIsReprlib : Bool              -- `bbrepr` wraps the instance's `reprlib.Repr.repr`, `repr1` defers to `Repr.repr1`
   segRepr : String                  -- the function `_format_path` prints a plain segment with: `repr` / `bbrepr`
+  runsMarked : Bool                 -- `_format_path` marks its runs of T steps (`(is_t_run, part)`), it does not
+                                    -- recognise them by `type(part) is list` (commit cf04d35)
+  sysMaxsize : Nat                  -- `sys.maxsize` of the interpreter: no `len()`, no text is longer
   deriving Repr
 
 def Facts.lim (F : Facts) : Limits := limitsOf F.limitTable (F.segRepr != "bbrepr")
 
-/-- the size up to which the round trip is proved whatever the instance's limits are -/
-def minLimit : Nat := 1024
+/-- `sys.maxsize` of every CPython is at least this (`Py_ssize_t` has 32 bits or more) -/
+def minLimit : Nat := 2147483647
 
 /-- the limit attributes the model reads -/
 def modelLimitNames : List String :=
@@ -364,12 +367,15 @@ def wfSeq (F : Facts) : Bool :=
   F.itemsExpr == "tuple(zip(cur_t_path[1::2], cur_t_path[2::2]))"
 
 /-- every limit this Python's reprlib has — in particular those the model reads — is raised to at
-    least `minLimit` in the instance `bbrepr` is bound to, whose printing is reprlib's -/
+    least `sys.maxsize` in the instance `bbrepr` is bound to (commit de451ae: no object reaches a
+    limit), whose printing is reprlib's; plain segments are printed by `bbrepr` too (commit 5242ad1)
+    and the runs of T steps in `_format_path` are marked (commit cf04d35) -/
 def wfLimits (F : Facts) : Bool :=
   (F.limitNames ++ modelLimitNames).all (fun n => match F.limitTable.lookup n with
-    | some v => decide (minLimit ≤ v)
+    | some v => decide (F.sysMaxsize ≤ v)
     | none => false) &&
-  F.fillvalue == "..." && F.reprIsReprlib && (F.segRepr == "repr" || F.segRepr == "bbrepr")
+  (decide (minLimit ≤ F.sysMaxsize) && F.fillvalue == "..." && F.reprIsReprlib &&
+   F.segRepr == "bbrepr" && F.runsMarked)
 
 def WF (F : Facts) : Bool := wfFmt F && wfPickle F && wfSeq F && wfLimits F
 
@@ -431,6 +437,10 @@ def seqRef {α} [DecidableEq α] (root : String) (steps : List (String × α)) :
     -- Path(p, q): the first part keeps its root; `q` is rooted at T
     .path root (steps ++ other)
   | .fromT => .path (if root == "S" then "T" else root) steps
+  | .ne oroot other => .bool (!decide (root = oroot ∧ steps = other))
+  | .eqOther => .bool false
+  | .startswithStr s => .bool (decide (root = "T") && [("P", s)].isPrefixOf steps)
+  | .startswithBad => .typeError
 
 def checkSeq {α} [DecidableEq α] (root : String) (steps : List (String × α)) (op : SeqOp α)
     (o : SeqRes α) : Bool :=
@@ -460,7 +470,8 @@ def observeRepr {L} [BEq (Step L)] (S : ScalarOps L) (F : Facts) (x : Obj L) : R
 
 /-- the objects the property is about: T expressions and Paths rooted at T, S or A -/
 def validObj {L} : Obj L → Bool
-  | .tobj r s => ["T", "S", "A"].contains r && validT s
+  -- (the `path_t` of a Path is a T expression too: it holds the plain segments)
+  | .tobj r s => ["T", "S", "A"].contains r && (validT s || (s.any Step.isSeg && validP s && aOk r s))
   | .pobj r s => ["T", "S", "A"].contains r && validP s && aOk r s
 
 def fitsObj {L} (S : ScalarOps L) (F : FmtFacts) (lim : Limits) (x : Obj L) : Bool :=
